@@ -111,4 +111,114 @@ def unsatNormT (n : Nat) : Trace := (unsatNorm n [] [] zero).tr
 @[simp] theorem unsatNorm_tr (n : Nat) (m v : List Sec) (c : Sec) : (unsatNorm n m v c).tr = unsatNormT n := by
   unfold unsatNormT unsatNorm; leak_simp; simp only [unsatIsNegative_tr, unsatAdd_tr, unsatSelect_tr, unsatNeg_tr]
 
+
+/-! ### the callers of `divsteps`: everything around the variable-time core is public -/
+
+/-- `divsteps` = two `bits()`, the declassified trip count, then that many trips -/
+theorem divsteps_tr (n : Nat) (e f0 g : List Sec) (inv : Sec) :
+    (divsteps n e f0 g inv).tr =
+      unsatBitsT n ++ (unsatBitsT n ++
+        ((declassify (iterations (unsatBits n f0).val (unsatBits n g).val)).tr ++
+         (forN (declassify (iterations (unsatBits n f0).val (unsatBits n g).val)).val
+            (fun _ st => divstepsTrip n f0 inv st) (one, f0, g, zeros n, e)).tr)) := by
+  unfold divsteps; leak_simp; simp only [unsatBits_tr]
+
+/-- what `SafeGcdInverter::inv` does after `divsteps` -/
+def safegcdInvPostT (u n : Nat) : Trace := unsatEqT u ++ (unsatNormT u ++ (unsatEqT u ++ limbConvertT 62 64 u n))
+theorem safegcdInvTail_tr (u n : Nat) (m adj g : List Sec) (inv : Sec) :
+    (safegcdInvTail u n m adj g inv).tr = (divsteps u adj m g inv).tr ++ safegcdInvPostT u n := by
+  unfold safegcdInvPostT safegcdInvTail; leak_simp; simp only [unsatEq_tr, unsatNorm_tr, unsatToUint_tr]
+
+/-- … and before it: three conversions and `inv_mod2_62` -/
+def safegcdInvPreT (n : Nat) : Trace :=
+  limbConvertT 64 62 n (unsatLimbs n) ++ (limbConvertT 64 62 n (unsatLimbs n) ++ (Event.pubIndex 0 :: limbConvertT 64 62 n (unsatLimbs n)))
+
+def safegcdGcdPostT (u n : Nat) : Trace := unsatIsNegativeT u ++ (unsatNegT u ++ (unsatSelectT u ++ limbConvertT 62 64 u n))
+theorem safegcdGcdTail_tr (u n : Nat) (fu gu : List Sec) (inv : Sec) :
+    (safegcdGcdTail u n fu gu inv).tr = (divsteps u (unsatOne u) fu gu inv).tr ++ safegcdGcdPostT u n := by
+  unfold safegcdGcdPostT safegcdGcdTail; leak_simp; simp only [unsatIsNegative_tr, unsatNeg_tr, unsatSelect_tr, unsatToUint_tr]
+
+def safegcdGcdPreT (n : Nat) : Trace :=
+  Event.pubIndex 0 :: (limbConvertT 64 62 n (unsatLimbs n) ++ limbConvertT 64 62 n (unsatLimbs n))
+
+
+/-- `bind_tr` with a proof that is not `rfl` (so that `rw` records the step instead of leaving it to definitional
+unfolding: the terms below contain the variable-time core applied to large arguments) -/
+theorem bind_tr' {α β : Type} (m : L α) (k : α → L β) : (m >>= k).tr = m.tr ++ (k m.val).tr := by
+  cases m; rfl
+
+private theorem inv_assoc (A D P : Trace) :
+    A ++ (A ++ ([Event.pubIndex 0] ++ ([] ++ (A ++ (D ++ P))))) = (A ++ (A ++ Event.pubIndex 0 :: A)) ++ (D ++ P) := by
+  simp only [List.append_assoc, List.nil_append, List.cons_append]
+
+/-- `Uint::inv_odd_mod`: three conversions and `inv_mod2_62`, then `divsteps` on the converted operands, then the public
+tail — nothing but `divsteps` depends on the operands -/
+theorem safegcdInv_tr (n : Nat) (m v : List Sec) :
+    (safegcdInv n m v).tr = safegcdInvPreT n ++
+      ((divsteps (unsatLimbs n) (unsatFromUint n (unsatLimbs n) (uone n)).val (unsatFromUint n (unsatLimbs n) m).val
+          (unsatFromUint n (unsatLimbs n) v).val (invMod262 (limb m 0)).val).tr ++ safegcdInvPostT (unsatLimbs n) n) := by
+  unfold safegcdInv safegcdInvPreT
+  rw [bind_tr', bind_tr', bind_tr', bind_tr', bind_tr']
+  rw [unsatFromUint_tr, unsatFromUint_tr, unsatFromUint_tr, safegcdInvTail_tr]
+  generalize (divsteps _ _ _ _ _).tr = D
+  rw [pubIndex_tr]
+  have h : (invMod262 (limb m 0)).tr = [] := rfl
+  rw [h]
+  exact inv_assoc _ D _
+
+private theorem gcd_assoc (A D P : Trace) :
+    [Event.pubIndex 0] ++ ([] ++ (A ++ (A ++ (D ++ P)))) = (Event.pubIndex 0 :: (A ++ A)) ++ (D ++ P) := by
+  simp only [List.append_assoc, List.nil_append, List.cons_append]
+
+theorem safegcdGcd_tr (n : Nat) (f g : List Sec) :
+    (safegcdGcd n f g).tr = safegcdGcdPreT n ++
+      ((divsteps (unsatLimbs n) (unsatOne (unsatLimbs n)) (unsatFromUint n (unsatLimbs n) f).val
+          (unsatFromUint n (unsatLimbs n) g).val (invMod262 (limb f 0)).val).tr ++ safegcdGcdPostT (unsatLimbs n) n) := by
+  unfold safegcdGcd safegcdGcdPreT
+  rw [bind_tr', bind_tr', bind_tr', bind_tr']
+  rw [unsatFromUint_tr, unsatFromUint_tr, safegcdGcdTail_tr]
+  generalize (divsteps _ _ _ _ _).tr = D
+  rw [pubIndex_tr]
+  have h : (invMod262 (limb f 0)).tr = [] := rfl
+  rw [h]
+  exact gcd_assoc _ D _
+
+
+/-! ### `Uint::gcd`, `Uint::inv_mod`: public wrapping around the safegcd call -/
+def ugcdOperandsT (n : Nat) : Trace := (ugcdOperands n [] []).tr
+@[simp] theorem ugcdOperands_tr (n : Nat) (a b : List Sec) : (ugcdOperands n a b).tr = ugcdOperandsT n := by
+  unfold ugcdOperandsT ugcdOperands; leak_simp; simp only [trailingZeros_tr, overflowingShr_tr, uselect_tr]
+
+def ugcdFinishT (n : Nat) : Trace := (ugcdFinish n [] zero).tr
+@[simp] theorem ugcdFinish_tr (n : Nat) (r : List Sec) (k : Sec) : (ugcdFinish n r k).tr = ugcdFinishT n := by
+  unfold ugcdFinishT ugcdFinish; leak_simp; simp only [overflowingShl_tr, uselect_tr]
+
+theorem ugcd_tr (n : Nat) (a b : List Sec) :
+    (ugcd n a b).tr = ugcdOperandsT n ++
+      ((safegcdGcd n (ugcdOperands n a b).val.1 (ugcdOperands n a b).val.2.1).tr ++ ugcdFinishT n) := by
+  unfold ugcd
+  rw [bind_tr', bind_tr', ugcdOperands_tr, ugcdFinish_tr]
+
+def ubitandT (n : Nat) : Trace := (ubitand n [] []).tr
+@[simp] theorem ubitand_tr (n : Nat) (a b : List Sec) : (ubitand n a b).tr = ubitandT n := by
+  unfold ubitandT ubitand; leak_loop
+
+@[simp] theorem unwrapOrZero_tr (n : Nat) (v : List Sec) (c : Sec) : (unwrapOrZero n v c).tr = uselectT n := by
+  unfold unwrapOrZero; rw [uselect_tr]
+
+def uinvModSplitT (n : Nat) : Trace := (uinvModSplit n []).tr
+@[simp] theorem uinvModSplit_tr (n : Nat) (m : List Sec) : (uinvModSplit n m).tr = uinvModSplitT n := by
+  unfold uinvModSplitT uinvModSplit; leak_simp; simp only [trailingZeros_tr, overflowingShr_tr, unwrapOrZero_tr]
+
+def uinvModFinishT (n : Nat) : Trace := (uinvModFinish n [] [] zero ([], zero)).tr
+@[simp] theorem uinvModFinish_tr (n : Nat) (a s : List Sec) (k : Sec) (ma : List Sec × Sec) :
+    (uinvModFinish n a s k ma).tr = uinvModFinishT n := by
+  unfold uinvModFinishT uinvModFinish; leak_simp
+  simp only [invMod2k_tr, unwrapOrZero_tr, overflowingShl_tr, wrappingSub_tr, wrappingMul_tr, ubitand_tr, wrappingAdd_tr]
+
+theorem uinvMod_tr (n : Nat) (a m : List Sec) :
+    (uinvMod n a m).tr = uinvModSplitT n ++ ((safegcdInv n (uinvModSplit n m).val.1 a).tr ++ uinvModFinishT n) := by
+  unfold uinvMod
+  rw [bind_tr', bind_tr', uinvModSplit_tr, uinvModFinish_tr]
+
 end CB.Leak
